@@ -179,6 +179,8 @@ impl DatabaseCheckpoint {
 
 		// Step 1: Flush all memtables to ensure consistency
 		self.flush_all_memtables()?;
+		#[cfg(surrealkv_verif)]
+		crate::verif::yield_point("checkpoint:flushed");
 
 		// Step 2: Get current sequence number from the manifest
 		let sequence_number = {
@@ -194,12 +196,16 @@ impl DatabaseCheckpoint {
 
 		// Step 4: Copy all SSTables
 		let (sstable_count, sstables_size) = self.copy_sstables(&sstables_dir)?;
+		#[cfg(surrealkv_verif)]
+		crate::verif::yield_point("checkpoint:tables-copied");
 
 		// Step 5: Copy WAL segments
 		self.create_new_wal(&wal_dir)?;
 
 		// Step 6: Copy level manifest
 		let manifest_size = self.copy_level_manifest(checkpoint_path)?;
+		#[cfg(surrealkv_verif)]
+		crate::verif::yield_point("checkpoint:manifest-copied");
 
 		// Step 7: Copy VLog directories if enabled
 		let vlog_size = self.copy_vlog_directories(checkpoint_path)?;
